@@ -39,20 +39,37 @@ def grids():
     return out
 
 
+def extra_grids():
+    """thorough tier: further members of every family (anisotropic, shifted origin, annular, z range excluding 0)"""
+    out = [{"kind": "cart", "shape": [14, 11], "dx": [0.8, 1.0], "origin": [-3.0, 2.0], "periodic": [True, False]},
+           {"kind": "cart", "shape": [24], "dx": [0.5], "origin": [-3.0], "periodic": [True]},
+           {"kind": "cart", "shape": [9, 10, 8], "dx": [1.0, 0.9, 1.1], "origin": [1.0, -4.0, 0.0], "periodic": [False, True, False]},
+           {"kind": "polar", "n": 14, "R": 13.0, "r0": 1.0}, {"kind": "sph", "n": 14, "R": 13.0, "r0": 1.0},
+           {"kind": "cyl", "shape": [8, 16], "R": 8.0, "z": [3.0, 19.0], "periodic_z": True},
+           {"kind": "cyl", "shape": [8, 17], "R": 6.0, "z": [-20.0, -3.0], "periodic_z": False}]
+    return out
+
+
 def blocks(tier, seed):
     out = []
-    for gi, g in enumerate(grids()):
-        for modes in range(5):
+    gs = grids() + (extra_grids() if tier == "thorough" else [])
+    for gi, g in enumerate(gs):
+        for modes in range(7 if tier == "thorough" else 5):
             for refine in (False, True):
-                out.append({"grid": g, "modes": modes, "refine": refine})
+                out.append({"grid": g, "modes": modes, "refine": refine, "tier": tier})
     return out
 
 
 def cases(block):
-    for w in WIDTHS:
-        for rule in RULES:
+    thorough = block.get("tier") == "thorough"
+    for w in (WIDTHS + [0.4] if thorough else WIDTHS):
+        for rule in (RULES + ["extrema", 0.3] if thorough else RULES):
             for img in IMAGES:
-                yield {"grid": block["grid"], "modes": block["modes"], "refine": block["refine"], "width": w, "rule": rule, "image": img}
+                for nproc in ((1, 2) if (thorough and block["refine"]) else (1,)):
+                    c = {"grid": block["grid"], "modes": block["modes"], "refine": block["refine"], "width": w, "rule": rule, "image": img}
+                    if nproc > 1:
+                        c["nproc"] = nproc
+                    yield c
 
 
 _F = {}
@@ -75,8 +92,10 @@ def field_for(g, img):
     else:
         if kind == "cart":
             N = g["shape"][0]
-            c1 = [N * 0.33 + 0.2] * dim
-            c2 = [N * 0.75 + 0.1] * dim if dim == 1 else [N * 0.75 + 0.1] + [N * 0.33 + 0.2] * (dim - 1)
+            L = [n * d for n, d in zip(g["shape"], g["dx"])]
+            o = g["origin"]
+            c1 = [o[a] + L[a] * 0.33 + 0.2 for a in range(dim)]
+            c2 = [o[0] + L[0] * 0.75 + 0.1] + [o[a] + L[a] * 0.33 + 0.2 for a in range(1, dim)]
             R1, R2 = (2.6, 1.9) if dim > 1 else (2.6, 1.8)
             if dim == 3:
                 R1, R2 = 2.4, 1.0
@@ -88,15 +107,16 @@ def field_for(g, img):
             drops = [DiffuseDroplet([0.0] * dim, 5.3, 1.0)]
             n = 1
         else:
-            drops = [DiffuseDroplet([0.0, 0.0, 5.2], 3.3, 1.0)]
+            z0 = g["z"][0]
+            drops = [DiffuseDroplet([0.0, 0.0, z0 + 5.2], 3.3, 1.0)]
             if img == "two":
-                drops.append(DiffuseDroplet([0.0, 0.0, 12.1], 2.2, 0.8))
+                drops.append(DiffuseDroplet([0.0, 0.0, z0 + 12.1], 2.2, 0.8))
             n = len(drops)
         data = Emulsion(drops).get_phasefield(grid).data.copy()
         if img == "speck":
             # a single bright cell far away from the droplet (on the axis for cylindrical grids)
             if kind == "cart":
-                idx = tuple([g["shape"][0] - 2] * dim)
+                idx = tuple(n_ - 2 for n_ in g["shape"])
             elif kind == "cyl":
                 idx = (0, g["shape"][1] - 3)
             else:
@@ -125,8 +145,15 @@ def run_case(case, ctx):
         except Exception as e:  # noqa
             ctx.check("C19.dim1-modes-raise", False, {"outcome": repr(e)}, tags)
         return
+    extra = {}
+    if case.get("nproc"):
+        from mcx import sched
+
+        sched.install()
+        extra["num_processes"] = case["nproc"]
+        ctx.count("requests-with-worker-processes")
     try:
-        em = locate_droplets(field, threshold=rule, modes=modes, interface_width=w, refine=refine)
+        em = locate_droplets(field, threshold=rule, modes=modes, interface_width=w, refine=refine, **extra)
         ctx.op()
     except Exception as e:  # noqa
         ctx.check("C19.no-raise", False, {"exc": repr(e)[:300]}, tags)
@@ -147,7 +174,7 @@ def run_case(case, ctx):
     if modes > 0:
         ctx.check("C19.modes", all(len(d.amplitudes) == modes and d.modes == modes for d in em), {"got": [len(d.amplitudes) for d in em], "want": modes}, tags)
     if w is not None and not refine:
-        ctx.check("C19.width-carried", all(hasattr(d, "interface_width") and d.interface_width == w for d in em), {"got": [getattr(d, "interface_width", "n/a") for d in em], "want": w}, tags)
+        ctx.check("C19.width-carried", all(hasattr(d, "interface_width") and d.interface_width is not None and d.interface_width == w for d in em), {"got": [getattr(d, "interface_width", "n/a") for d in em], "want": w}, tags)
     if len(em):
         ctx.check("C19.layout", len({d.data.dtype for d in em}) == 1, {"dtypes": [str(d.data.dtype) for d in em]}, tags)
         try:
